@@ -5,17 +5,14 @@ Helper lemmas for the exact-outcome theorems of `Props/C06.lean` (`C06_assignmen
 -/
 namespace Mesa.Cells
 
-/-- on a state satisfying the invariant `add_agent` refuses exactly when the cell has a capacity `n` (0 included, repair SC3)
-    and holds exactly `n` agents (`n >= capacity` is `n == capacity`; capacity `None` never refuses) -/
-theorem fullFor_iff {sp : Space} {s : State} (hi : Inv sp s) (c : Cid) :
-    fullFor sp s c = true ↔ ∃ n, sp.cap c = some n ∧ (s.occ c).length = n := by
+/-- `add_agent` refuses exactly when the cell has a capacity `n` (0 included, repair SC3) and holds `n` agents or more (more:
+    only after the program lowered `cell.capacity` under the occupancy); capacity `None` never refuses.  At any state. -/
+theorem fullFor_iff (sp : Space) (s : State) (c : Cid) :
+    fullFor sp s c = true ↔ ∃ n, sp.cap c = some n ∧ n ≤ (s.occ c).length := by
   unfold fullFor
   cases hcap : sp.cap c with
   | none => simp
-  | some n =>
-    have := hi.cap c n hcap
-    simp
-    omega
+  | some n => simp
 
 /-- the cells a draw script names, in order (`random.choice(cells)` for each draw) -/
 def drawn (cells : List Cid) (draws : List Nat) : List Cid := draws.filterMap (draw cells)
